@@ -30,6 +30,7 @@ import (
 	"github.com/thanos-community/promql-engine/execution/model"
 	"github.com/thanos-community/promql-engine/execution/parse"
 	"github.com/thanos-community/promql-engine/logicalplan"
+	"github.com/thanos-community/promql-engine/verifhook"
 )
 
 type QueryType int
@@ -253,6 +254,7 @@ func (q *compatibilityQuery) Exec(ctx context.Context) (ret *promql.Result) {
 	ctx, cancel := context.WithCancel(ctx)
 	defer cancel()
 	q.cancel = cancel
+	verifhook.Point("engine.exec", 0)
 
 	resultSeries, err := q.Query.exec.Series(ctx)
 	if err != nil {
@@ -385,6 +387,7 @@ func (q *compatibilityQuery) Close() { q.Cancel() }
 func (q *compatibilityQuery) String() string { return q.expr.String() }
 
 func (q *compatibilityQuery) Cancel() {
+	verifhook.Point("engine.cancel", 0)
 	if q.cancel != nil {
 		q.cancel()
 		q.cancel = nil
